@@ -46,17 +46,17 @@ class Sym(flow.Actor):
 
     def train(self, features, labels) -> None:
         chain = list(self.state['chain']) if self.state else []
-        try:
-            tokens = sorted({int(row[0]) for row in rows(features)})
-        except TypeError as err:
-            raise TypeError(f'{type(features)} {features!r}'[:300]) from err
-        self.state = {'name': self.name, 'hp_trained': self.hp, 'chain': chain + tokens}
+        data = rows(features)
+        tokens = sorted({int(row[0]) for row in data})
+        # 'sig' depends on where in the pipeline the actor sits (every Sym shifts the second column on apply)
+        sig = (list(self.state['sig']) if self.state else []) + [sum(int(row[1]) for row in data)]
+        self.state = {'name': self.name, 'hp_trained': self.hp, 'chain': chain + tokens, 'sig': sig}
         log({'event': 'train', 'actor': self.name, 'hp': self.hp, 'prev': chain, 'tokens': tokens,
              'labels': len(labels)})
 
     def apply(self, features):
         log({'event': 'apply', 'actor': self.name, 'hp': self.hp, 'state': self.state})
-        return features
+        return tuple((row[0], int(row[1]) * 3 + 1, *row[2:]) for row in rows(features))
 
     def get_state(self) -> bytes:
         """Like many user actors: the whole object is the state (hyper-parameters included)."""
@@ -108,6 +108,12 @@ def passthru(features):
 
 
 @wrap.Actor.apply
+def shift(features):
+    """Stateless mapper changing the data (so that two expansions of one scope do not see the same rows)."""
+    return tuple((row[0], int(row[1]) + 7, *row[2:]) for row in rows(features))
+
+
+@wrap.Actor.apply
 def relabel(labels):
     """Stateless label transformer."""
     return labels
@@ -133,15 +139,33 @@ class Branch(flow.Operator):
         merger_train: flow.Worker = merger_apply.fork()
         for idx, branch in enumerate((self._left.expand(), self._right.expand())):
             inner: flow.Trunk = scope.expand()
-            inner.train.subscribe(head.train)
+            if idx == 0:
+                inner.train.subscribe(head.train)
+                inner.apply.subscribe(head.apply)
+            else:  # the second expansion of the scope works on shifted data: its actors end up with other states
+                shift_apply: flow.Worker = flow.Worker(shift.builder(), 1, 1)
+                shift_train: flow.Worker = shift_apply.fork()
+                shift_apply[0].subscribe(head.apply.publisher)
+                shift_train[0].subscribe(head.train.publisher)
+                inner.train.subscribe(shift_train[0])
+                inner.apply.subscribe(shift_apply[0])
             inner.label.subscribe(head.label)
-            inner.apply.subscribe(head.apply)
             branch.train.subscribe(inner.train)
             branch.label.subscribe(inner.label)
             branch.apply.subscribe(inner.apply)
             merger_apply[idx].subscribe(branch.apply.publisher)
             merger_train[idx].subscribe(branch.train.publisher)
         return head.use(apply=head.apply.extend(tail=merger_apply), train=head.train.extend(tail=merger_train))
+
+
+_SHARED: dict = {}
+
+
+def shared(key: str, factory):
+    """One operator object per key and pipeline module import (so that 'Q' re-uses the object of 'R')."""
+    if key not in _SHARED:
+        _SHARED[key] = factory()
+    return _SHARED[key]
 
 
 def metric(true, pred) -> float:
@@ -243,8 +267,8 @@ def spec_names(spec: list, kinds=('S', 'R')) -> list[str]:
             out.append(el[1])
         elif el[0] == 'T' and 'T' in kinds:
             out.append(el[1])
-        elif el[0] == 'R' and 'R' in kinds:
-            out.extend(el[1])
+        elif el[0] in ('R', 'Q') and 'R' in kinds:
+            out.extend(n for n in el[1] if n not in out)
         elif el[0] == 'B':
             out.extend(spec_names(el[1], kinds))
             out.extend(spec_names(el[2], kinds))
@@ -261,13 +285,19 @@ def unanchored(spec: list, anchored: bool = False) -> list[str]:
             out.extend(unanchored(el[1], anchored))
             out.extend(unanchored(el[2], anchored))
             anchored = True  # the merger node
-        elif el[0] in ('S', 'R'):
+        elif el[0] in ('S', 'R', 'Q'):
             if not anchored:
                 out.extend([el[1]] if el[0] == 'S' else el[1])
             anchored = True
         elif el[0] == 'M':
             anchored = True
     return out
+
+
+def mapreduce(names: list) -> str:
+    builders = ', '.join(f"lc.Sym.builder(name='{n}', hp=lc.current_hp('{n}'))" for n in names)
+    reducer = 'lc.merge.builder()' if len(names) == 2 else 'lc.passthru.builder()'
+    return f'payload.MapReduce({builders}, reducer={reducer})'
 
 
 def render(spec: list) -> str:
@@ -281,10 +311,8 @@ def render(spec: list) -> str:
             parts.append('wrap.Operator.mapper(lc.passthru)()')
         elif el[0] == 'L':
             parts.append('wrap.Operator.label(lc.relabel)()')
-        elif el[0] == 'R':
-            builders = ', '.join(f"lc.Sym.builder(name='{n}', hp=lc.current_hp('{n}'))" for n in el[1])
-            reducer = 'lc.merge.builder()' if len(el[1]) == 2 else 'lc.passthru.builder()'
-            parts.append(f'payload.MapReduce({builders}, reducer={reducer})')
+        elif el[0] in ('R', 'Q'):
+            parts.append(mapreduce(el[1]))  # (an operator object can not be used twice: forml refuses non-linear use)
         else:
             parts.append(f'lc.Branch({render(el[1])}, {render(el[2])})')
     return '(' + ' >> '.join(parts) + ')'
